@@ -25,7 +25,8 @@ ASSUMPTIONS = [
     "v1 comparison is restricted to the v1 schema (no formal charge/spin, no attribs)",
 ]
 REQUIRED = {"roundtrip.v2.mol": 50, "roundtrip.v2.ens": 20, "roundtrip.v1.mol": 10, "roundtrip.v1.ens": 10,
-            "read.fresh-handle": 50, "source-unchanged": 50, "read.again-after-editing-previous-result": 50}
+            "read.fresh-handle": 50, "source-unchanged": 50, "read.again-after-editing-previous-result": 50,
+            "source.atoms-lent-to-another-structure": 20, "read.failed-decode-before-good-reads": 5}
 CHUNK_TIMEOUT = 900
 
 RTOL, ATOL = 1.2e-7, 1e-38
@@ -89,6 +90,7 @@ def run_chunk(spec, ctx):
     # ---- generate
     objs = {}
     keys = []
+    lent = []
     for j in range(spec["n"]):
         case = (spec["chunk"], j)
         rng = ctx.rng(*case)
@@ -97,6 +99,16 @@ def run_chunk(spec, ctx):
         else:
             x = gen.ensemble(rng, rich=True)
         key = rng.choice([f"k{j}", f"key with space {j}", f"ü{j}", f"{j}" + "x" * 200, f"{j}/slash"])
+        # some objects have lent (some of) their atoms to another structure before they are stored: atoms given to a
+        # constructor without copy_atoms are adopted by it (their parent link is re-pointed), the object itself is unchanged
+        if x.n_atoms >= 2 and rng.random() < 0.2:
+            picked = rng.sample(list(x.atoms), rng.randrange(1, x.n_atoms + 1))
+            helper = ml.Promolecule(picked)
+            ctx.count("source.atoms-lent-to-another-structure")
+            if rng.random() < 0.5:
+                lent.append(helper)          # the other structure stays alive ...
+            else:
+                del helper                   # ... or is dropped again
         objs[key] = (case, x)
         keys.append(key)
 
@@ -170,9 +182,26 @@ def run_chunk(spec, ctx):
             ctx.violation(f"second-read-differs-from-stored:{tag}:{d[0][0].split('[')[0].strip('.')}", case=case, route=route,
                           diff=d[:4])
 
+    # ---- a record that is not a molecule at all sits in the same file (written through the generic Collection API);
+    # reading it must fail without disturbing any later read in this process
+    if ctx.only is None:
+        from molli.storage import Collection, UkvCollectionBackend
+        raw = Collection(path, UkvCollectionBackend, readonly=False)
+        with raw.writing():
+            raw["~garbage~"] = bytes([0x9A, 0x01, 0xC4])        # truncated msgpack array
+        before_garbage = True
+    else:
+        before_garbage = False
+
     # ---- read back: same handle
     with lib.reading():
-        listed = set(lib.keys())
+        if before_garbage:
+            try:
+                lib["~garbage~"]
+                ctx.violation(f"garbage-record-decoded-as-an-object:{tag}")
+            except Exception:  # noqa
+                ctx.count("read.failed-decode-before-good-reads")
+        listed = set(lib.keys()) - {"~garbage~"}
         for key in keys:
             case, x = objs[key]
             if key not in before:
@@ -199,6 +228,11 @@ def run_chunk(spec, ctx):
     # ---- read back: fresh read-only library object, reversed order
     lib2 = Lib(path, readonly=True)
     with lib2.reading():
+        if before_garbage:
+            try:
+                lib2["~garbage~"]
+            except Exception:  # noqa
+                pass
         for key in reversed(keys):
             if key not in before:
                 continue
